@@ -306,7 +306,14 @@ def f_build_args(ctx: Ctx):
             if net is None:
                 continue
             if truth(("param", "authority"), s.facts) is True:
-                continue            # the authority string is used instead of the parts
+                # the authority string is used instead of the parts - which therefore must not have been supplied as well
+                # (the builder raises for the combination instead of ignoring one of them)
+                for p_ in ("user", "password", "host", "port"):
+                    if p_ in fi.params and fi.qual == "_url.URL.build":
+                        t = ("param", p_)
+                        absent = truth(("cmp", "Is", t, NONE), s.facts) is True or truth(t, s.facts) is False
+                        groups.setdefault(p_ + " (with authority)", []).append(absent)
+                continue
             if any(fv is True and k[0] == "cmp" and k[1] == "Is" and k[3] == NONE and model.declared_not_none(k[2], fi.module)
                    for k, fv in s.facts.items()):
                 continue            # infeasible: assumes None from a callee declared to return text
@@ -336,6 +343,12 @@ def f_build_args(ctx: Ctx):
             ctx.ob(rule, q, f"authority template on {len(tpl)} path(s)", all(tpl),
                    "an authority assembled in place from host and port is not `<host>:<port>`: the stored authority would not "
                    "split back into the host and port that were supplied", where(fi, fi.node), sample="<host>:<port>")
+        for p_ in [k for k in groups if k.endswith(" (with authority)")]:
+            oks = groups.pop(p_)
+            ctx.instance(rule)
+            ctx.ob(rule, q, f"`{p_}` on {len(oks)} path(s)", all(oks),
+                   f"a URL is built from `authority` on a path where `{p_.split()[0]}` may have been supplied as well: it is silently "
+                   "ignored instead of being rejected", where(fi, fi.node), sample="absent whenever authority is used")
         for p_, oks in groups.items():
             ctx.instance(rule)
             ctx.ob(rule, q, f"`{p_}` on {len(oks)} path(s)", all(oks),
@@ -384,6 +397,10 @@ def f3_join(ctx: Ctx):
         # relative resolution only against a base of the same scheme, and only for schemes that support it
         same = truth(("cmp", "Eq", rs, bs), f) is True or truth(("cmp", "Eq", bs, rs), f) is True or truth(rs, f) is False or \
             any(fv is True and k[0] == "cmp" and k[1] == "Eq" and bs in (k[2], k[3]) for k, fv in f.items())
+        relcap = any(fv is True and k[0] == "cmp" and k[1] == "In" and "USES_RELATIVE" in show(k[3]) for k, fv in f.items())
+        ob("relative-capable", "scheme of the base", relcap,
+           "a reference is resolved against a base whose scheme is not known to support relative resolution: "
+           "`mailto:a`.join(`b`) must return the reference unchanged", node, "scheme in uses_relative")
         ob("same-scheme", "scheme of a resolved reference", same,
            "a reference is resolved against the base although its scheme is not known to be the base's (or empty): "
            "`http://a/b`.join(`ftp:c`) must return the reference", node, "reference scheme empty or equal to the base's")
